@@ -51,8 +51,8 @@ def used_labels(instrs):
 
 
 def float_instrs(instrs):
-    """the same circuit in sim_common's convention (rz carries the angle itself); identity gates dropped"""
-    return [(n, list(q), (e / 8.0 if n == "rz" else e)) for n, q, e in instrs if n != "id"]
+    """the unitary part of the circuit in sim_common's convention (rz carries the angle itself): what the ideal circuit applies"""
+    return [(n, list(q), (e / 8.0 if n == "rz" else e)) for n, q, e in instrs if n in ("rz", "sx", "x", "cx", "ecr")]
 
 
 # ------------------------------------------------------------------ recording circuit class
